@@ -79,6 +79,10 @@ func (f *Frame) specSort(name string) (Sort, types.Type) {
 		return SIface, types.NewInterfaceType(nil, nil)
 	case "[]byte":
 		return SSlice, types.NewSlice(types.Typ[types.Uint8])
+	case "StrSet":
+		return ArrSort(SStr, SBool), nil // a set of strings (key set of a map[string]T)
+	case "StrRefMap":
+		return ArrSort(SStr, SInt), nil // strings to references (values of a map[string]*T)
 	}
 	if s, ok := eng.specSorts[name]; ok {
 		return s, nil
@@ -497,6 +501,20 @@ func (f *Frame) evalCall(x ECall, c *evalCtx) Val {
 	case "old":
 		nc := *c
 		nc.cur = c.old
+		// inside old(), a parameter name denotes the value the function was entered with
+		if _, own := c.env["$own"]; own && f.parent == nil && len(f.paramEnv) > 0 {
+			top := f
+			env := map[string]Val{}
+			for k, v := range c.env {
+				env[k] = v
+			}
+			for k, v := range top.paramEnv {
+				if _, ok := env[k]; ok {
+					env[k] = v
+				}
+			}
+			nc.env = env
+		}
 		return f.eval(x.Args[0], &nc)
 	case "len":
 		v := f.eval(x.Args[0], c)
@@ -638,6 +656,30 @@ func (f *Frame) evalCall(x ECall, c *evalCtx) Val {
 			return boolVal(Eq(cur, IntLit(0)))
 		}
 		return intVal(cur)
+	case "seenset":
+		// seenset(): the set of keys already visited by the map range of this loop, as an array Key -> Bool
+		for _, key := range f.ranges {
+			if s, ok := un.heapSort[key]; ok {
+				return Val{T: un.H(c.cur, key, s)}
+			}
+		}
+		f.fail("seenset(): no map range in scope")
+	case "emptyset":
+		return Val{T: ConstArr(ArrSort(SStr, SBool), tFalse)}
+	case "domof", "valsof":
+		// domof(m): the key set of map m (Key -> Bool); valsof(m): its values (Key -> Value); a nil map has no keys
+		m := f.eval(x.Args[0], c)
+		mt, ok := m.Go.Underlying().(*types.Map)
+		if !ok {
+			f.fail("%s of a non-map", x.Fn)
+		}
+		ks, vs := un.u.SortOf(mt.Key()), un.u.SortOf(mt.Elem())
+		dn, vn := un.mapHeaps(m.Go)
+		if x.Fn == "domof" {
+			d := Select(un.H(c.cur, dn, ArrSort(SInt, ArrSort(ks, SBool))), m.T)
+			return Val{T: Ite(Eq(m.T, IntLit(0)), ConstArr(ArrSort(ks, SBool), tFalse), d)}
+		}
+		return Val{T: Select(un.H(c.cur, vn, ArrSort(SInt, ArrSort(ks, vs))), m.T)}
 	case "seen":
 		// seen(k): key k already visited by the (innermost) map range of this loop
 		k := f.eval(x.Args[0], c)
